@@ -146,3 +146,8 @@ pub proof fn lemma_prop_ptrs_step(s: Seq<(VotingProposal, Option<ScriptWitnessTy
 
 /// the (account, coin) pair of the i-th withdrawal the builder holds
 pub open spec fn wd_pair(w: Seq<(RewardAddress, (Coin, Option<ScriptWitnessType>))>, i: int) -> (RewardAddress, Coin) { (w[i].0, w[i].1.0) }
+
+/// C20 / C05: the deposit total of the proposal builder is the sum of the deposits of its proposals
+pub open spec fn prop_deposits(s: Seq<(VotingProposal, Option<ScriptWitnessType>)>, n: int) -> nat decreases n { if n <= 0 { 0 } else { prop_deposits(s, n - 1) + s[n - 1].0.deposit.0 as nat } }
+pub proof fn lemma_prop_deposits_mono(s: Seq<(VotingProposal, Option<ScriptWitnessType>)>, a: int, b: int) requires 0 <= a <= b ensures prop_deposits(s, a) <= prop_deposits(s, b) decreases b - a
+{ if a < b { lemma_prop_deposits_mono(s, a, b - 1); } }
